@@ -1,6 +1,7 @@
 import ALock.Lemmas.OnceCell
 import ALock.Lemmas.OnceCellSer
 import ALock.Atomic.OnceCell
+import ALock.Lemmas.Accept
 
 /-!
 # C04 — OnceCell: initialised at most once, and only a complete value is ever visible
@@ -371,3 +372,19 @@ example :
     s.ags.map (·.view) = [[], [0], [0]] := by decide
 
 end ALock.Atomic.Once
+
+namespace ALock.Accept.Once
+open ALock.Atomic.Once
+
+/-- **C04 (executions of the real crate with injected preemptions).** An accepted trace is a run of
+the atomic-granularity model: at most one agent is initialising, and who has seen `Initialized` has
+the value's write in its view. -/
+theorem C04_accepted (n : Nat) (tr : List TEv) (st' : St)
+    (h : acceptAll (init n) tr = .ok st') :
+    runners st'.sys.ags ≤ 1 ∧
+    ∀ a ∈ st'.sys.ags, a.seen2 = true → ∃ k, st'.sys.cur = some k ∧ k ∈ a.view := by
+  obtain ⟨l, e⟩ := accepted_reachable h
+  rw [e]
+  exact ⟨(C04_interleaved_single l).1, C04_publication l⟩
+
+end ALock.Accept.Once
